@@ -21,6 +21,7 @@ func (P *Prog) lemmaElab(lm *Lemma, prefix string) (*lemmaParts, error) {
 	pkg := P.pkgOf(lm.Pkg)
 	lp := &lemmaParts{}
 	env := &Env{P: P, pkg: pkg, bound: map[string]Val{}}
+	env.fuelAll = prefix != "c_" // axiom and induction-hypothesis forms hold for every fuel
 	for _, b := range lm.Params {
 		t, err := P.resolveType(pkg, b.Type)
 		if err != nil {
@@ -77,6 +78,13 @@ func (P *Prog) lemmaElab(lm *Lemma, prefix string) (*lemmaParts, error) {
 
 func (lp *lemmaParts) quantified(extraHyp Term) string {
 	body := implies(and(append([]Term{extraHyp}, lp.req...)...), and(lp.ens...))
+	if containsSym(body.S+lp.trig, "ly") {
+		lp.decls = append([]string{"(ly Fuel)"}, lp.decls...)
+		if lp.trig != "" && !containsSym(lp.trig, "ly") {
+			// the trigger must mention the fuel variable: fall back to solver-chosen patterns
+			lp.trig = ""
+		}
+	}
 	if len(lp.decls) == 0 {
 		return body.S
 	}
